@@ -53,8 +53,12 @@ def gc_roles(items):
     MARK  - the header bool that is compared with / assigned from LIVE
     NOGC  - the header's other bool (objects exempt from collection)
     Returns None when a role cannot be told apart."""
-    th = q.find_struct(items, "VmGreenThread")
     hd = q.find_struct(items, "ObjectHeader")
+    # the record that holds the collector's data: the thread itself, or a struct nested in it
+    th = None
+    for st_, _ in q.iter_items(items):
+        if st_["k"] == "StructDef" and sum(1 for fl in st_["fields"] if fl["ty"].replace(" ", "") == "Vec<*mutObjectHeader>") >= 2 and any(fl["ty"].strip() == "GcState" for fl in st_["fields"]):
+            th = st_
     if th is None or hd is None:
         return None
     vecs = [fl["name"] for fl in th["fields"] if fl["ty"].replace(" ", "") == "Vec<*mutObjectHeader>"]
@@ -63,7 +67,8 @@ def gc_roles(items):
     state = [fl["name"] for fl in th["fields"] if fl["ty"].strip() == "GcState"]
     popped, unlinked, flipped = set(), set(), set()
     pairs = {}
-    for f in q.find_fns(items, impl_ty="VmGreenThread"):
+    gc_fns = [f for f, _ in q.iter_items(items) if f["k"] == "Fn" and f.get("body") is not None]
+    for f in gc_fns:
         if f.get("body") is None:
             continue
         for x in q.walk(f["body"]):
@@ -76,7 +81,7 @@ def gc_roles(items):
                 flipped.add(x["a"]["f"])
     # swap_remove may be applied to a local alias of the list (`let list = &mut self.heap_list`)
     if not unlinked:
-        for f in q.find_fns(items, impl_ty="VmGreenThread"):
+        for f in gc_fns:
             if f.get("body") is None:
                 continue
             alias = {}
@@ -114,7 +119,32 @@ def gc_roles(items):
         return None
     mark, live = max(pairs, key=pairs.get)
     nogc = [b for b in hbools if b != mark]
-    return {"HEAP": heap[0], "GRAY": gray, "STATE": state[0], "LIVE": live, "MARK": mark, "NOGC": nogc[0] if len(nogc) == 1 else None}
+    return {"OWNER": th["name"], "HEAP": heap[0], "GRAY": gray, "STATE": state[0], "LIVE": live, "MARK": mark, "NOGC": nogc[0] if len(nogc) == 1 else None}
+
+def prim_markers(items):
+    """Functions that mark a value themselves: they set the header's mark and push the object on a worklist."""
+    ro = gc_roles(items)
+    out = set()
+    if ro is None:
+        return {"mark"}
+    for f, _ in q.iter_items(items):
+        if f["k"] == "Fn" and f.get("body") is not None:
+            if any(x["k"] == "Assign" and q.strip_refs(x["a"])["k"] == "Field" and q.strip_refs(x["a"])["f"] == ro["MARK"] for x in q.walk(f["body"])) and any(x["k"] == "MethodCall" and x["m"] == "push" for x in q.walk(f["body"])) and not any(x["k"] == "MethodCall" and x["m"] == "pop" for x in q.walk(f["body"])):
+                out.add(f["name"])
+    return out or {"mark"}
+
+
+def is_mark_call(x, prims):
+    return (x["k"] == "Call" and x["f"]["k"] == "Path" and q.last_seg(x["f"]["p"]) in prims) or (x["k"] == "MethodCall" and x["m"] in prims)
+
+
+def gray_scanner(items):
+    """The function that takes objects off the gray worklist and scans them (whatever it is called, wherever it lives)."""
+    ro = gc_roles(items)
+    if ro is None:
+        return None
+    cands = [f for f, _ in q.iter_items(items) if f["k"] == "Fn" and f.get("body") is not None and any(x["k"] == "MethodCall" and x["m"] == "pop" and q.strip_refs(x["recv"])["k"] == "Field" and q.strip_refs(x["recv"])["f"] == ro["GRAY"] for x in q.walk(f["body"]))]
+    return cands[0] if len(cands) == 1 else None
 
 
 def marking_fns(items):
@@ -122,7 +152,7 @@ def marking_fns(items):
     function that calls one of those (a helper that marks a slice, the root marker, ...)."""
     ro = gc_roles(items)
     out = set()
-    fns = [f for f in q.find_fns(items, impl_ty="VmGreenThread") if f.get("body") is not None]
+    fns = [f for f, _ in q.iter_items(items) if f["k"] == "Fn" and f.get("body") is not None and q.fn_owner(items, f) in ("VmGreenThread", (ro or {}).get("OWNER"))]
     for f in fns:
         if ro and any(x["k"] == "Assign" and q.strip_refs(x["a"])["k"] == "Field" and q.strip_refs(x["a"])["f"] == ro["MARK"] for x in q.walk(f["body"])) and any(x["k"] == "MethodCall" and x["m"] == "push" for x in q.walk(f["body"])):
             out.add(f["name"])
@@ -134,7 +164,7 @@ def marking_fns(items):
         for f in fns:
             if f["name"] in out:
                 continue
-            if any((x["k"] == "Call" and x["f"]["k"] == "Path" and q.last_seg(x["f"]["p"]) in out) or (x["k"] == "MethodCall" and x["m"] in out and q.show(x["recv"]) == "self") for x in q.walk(f["body"])):
+            if any((x["k"] == "Call" and x["f"]["k"] == "Path" and q.last_seg(x["f"]["p"]) in out) or (x["k"] == "MethodCall" and x["m"] in out and q.show(x["recv"]).split(".")[0] == "self") for x in q.walk(f["body"])):
                 out.add(f["name"])
                 changed = True
     return out
@@ -293,7 +323,10 @@ def gc_alloc(ctx, r):
                      f"{ty}::{f['name']}: an object allocated black during marking must be pushed on the gray stack (exactly then) so its unbarriered initial fields are scanned; the push happens in states {shade_tbl}")
             # (4) accounting
             acc = {q.show(x["a"]).split(".")[-1] for x in W(f["body"]) if x["k"] == "Binary" and x["op"] == "+="}
-            r.ob({"heap_size", "gc_debt"} <= acc, key + ":accounting", VM, f["l"], f"{ty}::{f['name']}: must add the object's size to heap_size and gc_debt (adds to {sorted(acc)})", sample=f"{ty}::{f['name']}: registered, shaded, accounted")
+            # the two ledgers: the owner's usize fields (live size, and the debt that paces the collector)
+            ost = q.find_struct(items, ro["OWNER"])
+            ledgers = {fl["name"] for fl in (ost["fields"] if ost else []) if fl["ty"].strip() == "usize"}
+            r.ob(len(acc & ledgers) >= 2, key + ":accounting", VM, f["l"], f"{ty}::{f['name']}: must add the object's size to the live-size and debt counters of the collector (adds to {sorted(acc)}; counters {sorted(ledgers)})", sample=f"{ty}::{f['name']}: registered, shaded, accounted")
     r.count("thread-heap allocators", n, 5, VM)
 
 
@@ -308,7 +341,9 @@ def gc_roots(ctx, r):
     if st is None or f is None:
         r.missing("VmGreenThread / root marking routine", VM)
         return
-    marked = {x["f"] for x in q.walk(f["body"]) if x["k"] == "Field" and x["e"]["k"] == "Path" and x["e"]["p"] == "self"}
+    prims = prim_markers(items)
+    # the fields handed to the marking primitive by the root marker, directly or through its helpers (a slice helper, a local array)
+    marked = {x["f"] for x in W(f["body"]) if x["k"] == "Field" and x["e"]["k"] == "Path" and x["e"]["p"] == "self"} if any(is_mark_call(x, prims) for x in W(f["body"])) else set()
     n = 0
     for fl in st["fields"]:
         ty = fl["ty"].replace(" ", "")
@@ -321,22 +356,23 @@ def gc_roots(ctx, r):
 
 
 def root_marker(items):
-    """The function that marks the roots: start_mark_phase itself, or the helper it delegates to."""
+    """The function that names the roots: start_mark_phase itself, or the function it calls whose own body reads the thread's
+    value-holding fields (the operand stack) and marks."""
     smp = q.find_fn(items, "start_mark_phase", impl_ty="VmGreenThread")
-    if smp is None:
-        return None
+    st = q.find_struct(items, "VmGreenThread")
+    if smp is None or st is None:
+        return smp
+    roots = {fl["name"] for fl in st["fields"] if "Value" in fl["ty"].replace("ValueTag", "")}
 
-    mf = marking_fns(items)
+    def names_roots(f):
+        return any(x["k"] == "Field" and x["f"] in roots and x["e"]["k"] == "Path" and x["e"]["p"] == "self" for x in q.walk(f["body"]))
 
-    def marks_fields(f):
-        return any((x["k"] == "Call" and x["f"]["k"] == "Path" and q.last_seg(x["f"]["p"]) in mf) for x in q.walk(f["body"]))
-
-    if marks_fields(smp):
+    if names_roots(smp):
         return smp
     for x in q.walk(smp["body"]):
         if x["k"] == "MethodCall" and q.show(x["recv"]) == "self":
             g = q.find_fn(items, x["m"], impl_ty="VmGreenThread")
-            if g is not None and marks_fields(g):
+            if g is not None and g.get("body") is not None and names_roots(g):
                 return g
     return smp
 
@@ -348,10 +384,11 @@ def gc_children(ctx, r):
         r.missing("vm.rs")
         return
     k2t, _ = kind_types(items)
-    pg = q.find_fn(items, "process_gray", impl_ty="VmGreenThread")
+    pg = gray_scanner(items)
     if pg is None:
-        r.missing("process_gray", VM)
+        r.missing("process_gray (the function that pops the gray worklist)", VM)
         return
+    prims = prim_markers(items)
     arms = {}
     for m in W(pg["body"]):
         if m["k"] == "Match" and any(h.startswith("ObjectKind::") for a in m["arms"] for h in q.pat_heads(a["pat"])):
@@ -371,7 +408,7 @@ def gc_children(ctx, r):
                 continue
             n += 1
             used = any(x["k"] == "Field" and x["f"] == fl["name"] for x in W(arm["body"]))
-            marks = any(x["k"] == "Call" and q.show(x["f"]).endswith("mark") for x in W(arm["body"]))
+            marks = any(is_mark_call(x, prims) for x in W(arm["body"]))
             r.ob(used and marks, f"vm.rs:process_gray:{kind}:{fl['name']}:not-marked", VM, arm["l"],
                  f"process_gray: {ty}.{fl['name']} ({fl['ty']}) is not marked when an object of kind {kind} is scanned", sample=f"process_gray {kind}: marks .{fl['name']}")
             if any(c in t for c in ("Vec<", "VecDeque<")):
@@ -380,14 +417,14 @@ def gc_children(ctx, r):
                 guards = {b for x in W(arm["body"]) if x["k"] == "Local" and x.get("init") is not None and f"obj.{fl['name']}" in q.show(x["init"]) and q.show(x["init"]).endswith(".lock().unwrap()") for b in q.pat_bindings(x["pat"])}
                 for gname in guards:
                     whole |= {gname, "&" + gname, gname + ".iter()", "&*" + gname}
-                loops = [x for x in W(arm["body"]) if x["k"] == "For" and any(y["k"] == "Call" and q.show(y["f"]).endswith("mark") for y in W(x["body"]))]
+                loops = [x for x in W(arm["body"]) if x["k"] == "For" and any(is_mark_call(y, prims) for y in W(x["body"]))]
                 srcs = [q.show(x["e"]).replace(" ", "") for x in loops]
                 r.ob(bool(loops) and all(s_ in whole for s_ in srcs), f"vm.rs:process_gray:{kind}:{fl['name']}:partially-marked", VM, arm["l"],
                      f"process_gray: the elements of {ty}.{fl['name']} are marked by iterating `{srcs}`; the whole collection must be traversed (a partial view such as one slice of a ring buffer leaves reachable elements white)",
                      sample=f"process_gray {kind}: every element of .{fl['name']} ({srcs})")
         if ty == "StructObject":
             n += 1
-            r.ob(any(x["k"] == "MethodCall" and x["m"] == "get_fields" for x in W(arm["body"])) and any(x["k"] == "Call" and q.show(x["f"]).endswith("mark") for x in W(arm["body"])),
+            r.ob(any(x["k"] == "MethodCall" and x["m"] == "get_fields" for x in W(arm["body"])) and any(is_mark_call(x, prims) for x in W(arm["body"])),
                  "vm.rs:process_gray:Struct:fields-not-marked", VM, arm["l"], "process_gray: the trailing fields of a StructObject are not marked", sample="process_gray Struct: marks get_fields()")
     r.count("Value-typed payload fields", n, 3, VM)
     # deep_copy: total over ValueTag, recursive on payloads, channel shares the queue
@@ -489,24 +526,25 @@ def gc_termination(ctx, r):
         return
     GRAYF = ro["GRAY"]
     sites = []
-    for f in q.find_fns(items, impl_ty="VmGreenThread"):
+    for f in [g_ for g_, _ in q.iter_items(items) if g_["k"] == "Fn" and g_.get("body") is not None]:
         for x in q.walk(f["body"]):
-            if x["k"] == "Assign" and q.show(x["a"]) == "self." + ro["STATE"] and "Sweeping" in q.show(x["b"]):
+            if x["k"] == "Assign" and (q.show(x["a"]) == "self." + ro["STATE"] or q.show(x["a"]).endswith("." + ro["STATE"])) and "Sweeping" in q.show(x["b"]):
                 sites.append((f, x))
     r.count("transitions to Sweeping", len(sites), 1, VM)
     for f, asg in sites:
-        # enclosing chain of ifs
-        chain = enclosing_ifs(f["body"], asg)
-        empties = [c for c in chain if GRAYF + ".is_empty()" in q.show(c["c"]).replace(" ", "")]
+        # the emptiness of the worklist is tested, the roots are marked again, and the emptiness is tested once more before
+        # the transition - whether written as nested ifs or with an early return
+        def empt(node):
+            return [1 for c_, pol in q.cond_atoms(q.path_conds(f["body"], node) or []) if pol and GRAYF + ".is_empty()" in q.show(c_).replace(" ", "")]
+
+        order = {id(x): k_ for k_, x in enumerate(q.walk(f["body"]))}
+        n_asg = len(empt(asg))
         ok = False
-        why = f"the transition is not guarded by {GRAYF}.is_empty()"
-        if empties:
-            why = "no root re-marking between the emptiness test and the transition"
-            # a call to the root marker inside an enclosing emptiness test and before a (second) emptiness test that guards the transition
-            for outer in empties:
-                calls = [x for x in q.walk(outer["t"]) if x["k"] == "MethodCall" and q.show(x["recv"]) == "self" and rm is not None and x["m"] == rm["name"] and x["l"] <= asg["l"]]
-                inner = [c for c in empties if c is not outer and c["l"] > outer["l"]]
-                if calls and inner and all(c["l"] >= max(k["l"] for k in calls) for c in inner):
+        why = f"the transition is not guarded by {GRAYF}.is_empty()" if n_asg == 0 else "no root re-marking between the emptiness test and the transition"
+        for x in q.walk(f["body"]):
+            if x["k"] == "MethodCall" and rm is not None and x["m"] == rm["name"] and order[id(x)] < order[id(asg)]:
+                n_call = len(empt(x))
+                if n_call >= 1 and n_asg >= n_call + 1:
                     ok = True
         loads_shade = False
         r.ob(ok or loads_shade, f"vm.rs:{f['name']}:sweep-without-root-rescan", VM, asg["l"],
@@ -573,9 +611,11 @@ def gc_sweep(ctx, r):
         r.missing("collector roles", VM)
         return
     HEAP, GRAY, LIVE, MARK, NOGC = ro["HEAP"], ro["GRAY"], ro["LIVE"], ro["MARK"], ro["NOGC"]
-    sw = q.find_fn(items, "sweep", impl_ty="VmGreenThread")
+    allf = [f for f, _ in q.iter_items(items) if f["k"] == "Fn" and f.get("body") is not None]
+    # the sweeper: the function that unlinks objects from the object list
+    sw = next((f for f in allf if any(x["k"] == "MethodCall" and x["m"] == "dealloc" for x in q.walk(f["body"])) and any(x["k"] == "If" and any(y["k"] == "Field" and y["f"] == MARK for y in q.walk(x["c"])) and any(y["k"] == "MethodCall" and y["m"] == "dealloc" for y in q.walk(x)) for x in q.walk(f["body"]))), None)
     # the marking primitive: sets the header's mark and pushes the object on the worklist
-    mk = next((f for f in q.find_fns(items, impl_ty="VmGreenThread") if f.get("body") is not None and f["name"] != "write_barrier"
+    mk = next((f for f in allf if f.get("body") is not None and f["name"] != "write_barrier"
                and any(x["k"] == "Assign" and q.strip_refs(x["a"])["k"] == "Field" and q.strip_refs(x["a"])["f"] == MARK for x in q.walk(f["body"]))
                and any(x["k"] == "MethodCall" and x["m"] == "push" for x in q.walk(f["body"]))
                and not any(x["k"] == "MethodCall" and x["m"] == "pop" for x in q.walk(f["body"]))), None)
@@ -630,11 +670,11 @@ def gc_sweep(ctx, r):
     r.ob(ptr_ok and nogc_ok and unmarked_ok, "vm.rs:mark:early-returns", VM, mk["l"],
          f"{mk['name']} must skip non-pointers, {NOGC} objects and already marked objects; the push is reached under {[('' if pol else 'not ') + q.show(a) for a, pol in atoms]}", sample=f"{mk['name']}: skips non-pointer / {NOGC} / marked")
     # drop
-    drops = [i for i in q.find_impls(items, self_ty="VmGreenThread", trait="Drop")]
+    drops = [i for i in q.find_impls(items, self_ty="VmGreenThread", trait="Drop")] + [i for i in q.find_impls(items, self_ty=ro["OWNER"], trait="Drop") if ro["OWNER"] != "VmGreenThread"]
     ok = False
     if drops:
         d = drops[0]["items"][0]
-        loops = [x for x in q.walk(d["body"]) if x["k"] == "For" and any(y["k"] == "Field" and y["f"] == HEAP for y in q.walk(x["e"]))]
+        loops = [x for x in W(d["body"]) if x["k"] == "For" and any(y["k"] == "Field" and y["f"] == HEAP for y in q.walk(x["e"]))]
         ok = bool(loops) and any(y["k"] == "MethodCall" and y["m"] == "dealloc" for y in q.walk(loops[0]["body"]))
     r.ob(ok, "vm.rs:VmGreenThread:drop-does-not-free-heap", VM, drops[0]["l"] if drops else 0, f"dropping a thread must free every object in its {HEAP} (impl Drop for VmGreenThread)", sample=f"Drop for VmGreenThread frees {HEAP}")
 
@@ -651,7 +691,7 @@ def own_ledger(ctx, r):
         r.missing("collector roles", VM)
         return
     registries = {}  # registry field -> owner struct
-    for st_name in ("VmGreenThread", "VmSharedReadonly"):
+    for st_name in dict.fromkeys(("VmGreenThread", "VmSharedReadonly", ro["OWNER"])):
         st = q.find_struct(items, st_name)
         if st is None:
             r.missing(st_name, VM)
@@ -683,11 +723,11 @@ def own_ledger(ctx, r):
             r.ob(len(regs) == 1, f"vm.rs:{where}:allocation-not-registered", VM, f["l"], f"{where} allocates raw memory that is registered in {sorted(regs)}; it must be recorded in exactly one registry so that someone frees it", sample=f"{where} -> {sorted(regs)}")
             for reg in regs:
                 owner = registries[reg]
-                drops = q.find_impls(items, self_ty=owner, trait="Drop")
+                drops = q.find_impls(items, self_ty=owner, trait="Drop") or (q.find_impls(items, self_ty="VmGreenThread", trait="Drop") if owner == ro["OWNER"] else [])
                 ok = False
                 if drops:
                     d = drops[0]["items"][0]
-                    for x in q.walk(d["body"]):
+                    for x in W(d["body"]):
                         if x["k"] == "For" and reg in q.show(x["e"]):
                             if any(y["k"] == "MethodCall" and y["m"] == "dealloc" for y in q.walk(x["body"])) or any(y["k"] == "Call" and q.show(y["f"]) == "Box::from_raw" for y in q.walk(x["body"])):
                                 ok = True
@@ -821,6 +861,13 @@ def heap_acct(ctx, r):
                                 factor = q.show(b["b"] if b["a"] is x else b["a"])
                         measures.append((ty, x["recv"]["f"], x["m"], factor))
     r.count("object kinds whose nbytes() depends on a growable buffer", len(measures), 2, VM)
+    ro = gc_roles(items)
+    ost = q.find_struct(items, ro["OWNER"]) if ro else None
+    ledgers = {fl["name"] for fl in (ost["fields"] if ost else []) if fl["ty"].strip() == "usize"} or {"heap_size"}
+    # the live-size ledger is the one deallocation subtracts from: the field handed to `dealloc(&mut ..)`
+    size_led = {y["f"] for f_, _ in q.iter_items(items) if f_["k"] == "Fn" and f_.get("body") is not None for c in q.walk(f_["body"]) if c["k"] == "MethodCall" and c["m"] == "dealloc" for a in c["args"] for y in q.walk(a) if y["k"] == "Field" and y["f"] in ledgers}
+    if size_led:
+        ledgers = size_led
     n = 0
     for ty, field, measure, factor in measures:
         for impl in q.find_impls(items):
@@ -859,8 +906,18 @@ def heap_acct(ctx, r):
                     adj = []
                     for s in stmts[i + 1:]:
                         for y in q.walk(s):
-                            if y["k"] == "Binary" and y["op"] == "+=" and q.show(y["a"]).endswith("heap_size"):
+                            if y["k"] == "Binary" and y["op"] == "+=" and q.show(y["a"]).split(".")[-1] in ledgers:
                                 adj.append(y)
+                            # or through an accounting helper that adds its parameter to the ledger
+                            if y["k"] == "MethodCall" and isinstance(y.get("inl"), dict):
+                                ps = y["inl"].get("params") or []
+                                for z in q.walk(y["inl"]["body"]):
+                                    if z["k"] == "Binary" and z["op"] == "+=" and q.show(z["a"]).split(".")[-1] in ledgers:
+                                        rhs = z["b"]
+                                        if rhs["k"] == "Path" and rhs["p"] in ps and ps.index(rhs["p"]) < len(y["args"]):
+                                            adj.append({"k": "Binary", "op": "+=", "a": z["a"], "b": y["args"][ps.index(rhs["p"])], "l": y["l"]})
+                                        elif not (rhs["k"] == "Path"):
+                                            adj.append({"k": "Binary", "op": "+=", "a": z["a"], "b": rhs, "l": y["l"]})
                     ok = False
                     detail = f"found before={sorted(bvars)} after={sorted(avars)} adjustments={[q.show(y['b']) for y in adj]}"
                     def resolved(e):
